@@ -243,6 +243,22 @@ Theorem SrcTie_options_add : forall s k v, Options_add s k v = PyObjOpt.of_oerr 
 Proof. exact options_add_src. Qed.
 Print Assumptions SrcTie_options_add.
 
+Theorem SrcTie_validate_can_add_to_context : forall k v g c,
+  OptionsValidator_validate_can_add_to_context k v g c = if add_group_rejects k v c g then Raise ValueError else Ok tt.
+Proof. exact validate_can_add_to_context_src. Qed.
+Print Assumptions SrcTie_validate_can_add_to_context.
+
+Theorem SrcTie_options_add_to_context : forall s k v,
+  Options_add_to_context s k v = PyObjOpt.of_oerr (Options.o_add_context k v s).
+Proof. exact options_add_to_context_src. Qed.
+Print Assumptions SrcTie_options_add_to_context.
+
+(* Options.set never raises and leaves o_set's state *)
+Theorem SrcTie_options_set : forall s k v,
+  Options_set s k v = (tt, fst (Options.o_set k v s)) /\ snd (Options.o_set k v s) = None.
+Proof. exact options_set_src. Qed.
+Print Assumptions SrcTie_options_set.
+
 (* components/feature_collection.py  Features.merge_options.  The final call feature_options.update_with_protected_keys(child)
    is a PARAMETER (not translated: dict comprehension with a filter, del, default argument).  For EVERY callee: TypeError when
    the value under feature_chainer_parser_key cannot be iterated, ValueError when a key that is not protected has different
